@@ -27,6 +27,7 @@ import (
 	"verifharness/internal/mpxh"
 	"verifharness/internal/peer"
 	"verifharness/internal/tlcio"
+	"verifharness/internal/tscale"
 )
 
 type Rec struct {
@@ -43,7 +44,7 @@ type Outcome struct {
 	Sched  string `json:"sched"`
 }
 
-const stepTimeout = 3 * time.Second
+var stepTimeout = tscale.D(3 * time.Second)
 
 var gated = map[string]bool{"lc.check1": true, "lc.set": true, "lc.check2": true, "lc.del": true, "lc.cas": true,
 	"lc.unsub": true, "cl.begin": true, "cl.setflag": true, "cl.notify": true, "cl.call": true, "cl.clear": true}
@@ -137,10 +138,10 @@ func serve(ln net.Listener) (*peer.Peer, error) {
 		return nil, err
 	}
 	p := peer.Wrap(c)
-	if _, err := p.ReadLine(3 * time.Second); err != nil {
+	if _, err := p.ReadLine(tscale.D(3 * time.Second)); err != nil {
 		return nil, err
 	}
-	if _, err := p.ReadFrame(3 * time.Second); err != nil {
+	if _, err := p.ReadFrame(tscale.D(3 * time.Second)); err != nil {
 		return nil, err
 	}
 	p.WriteRaw([]byte(peer.ProtocolLine))
@@ -180,7 +181,7 @@ func runSchedule(rec *Rec, c *ctl, nocas bool, report func(sig, detail string)) 
 	defer a.p.Close()
 	defer conn.Close()
 	// wait until the handshake is done (Channel succeeds)
-	ch, st := conn.Channel(async.TimeoutContext(3 * time.Second))
+	ch, st := conn.Channel(async.TimeoutContext(tscale.D(3 * time.Second)))
 	if !st.OK() {
 		report("harness", "channel: "+st.String())
 		return
